@@ -34,3 +34,49 @@ def install(world):
         ensures=[],
         note="prefix only: the three argument rejections; the planning loops are beyond the verifier's reach",
     ))
+
+
+def plan_args(R, C, mode, per_column=False):
+    def make(ex):
+        env = args(ex, R=R, C=C, mode=mode)
+        if per_column:
+            from pyvc.values import SeqV
+            env["vmax"] = SeqV.of("list", [sreal(f"vmax{c}") for c in range(C)])
+        return env
+
+    return make
+
+
+def install_plan(world):
+    scen = []
+    for R, C in [(1, 1), (2, 2), (1, 3)]:
+        for mode in ("linear", "log"):
+            scen.append(Scenario(f"R={R},C={C},{mode},vmax scalar", plan_args(R, C, mode), thorough_only=(C == 3)))
+    scen.append(Scenario("R=2,C=2,log,vmax per column", plan_args(2, 2, "log", True)))
+    scen.append(Scenario("R=1,C=3,linear,vmax per column", plan_args(1, 3, "linear", True), thorough_only=True))
+    register(world, Contract(
+        func=INIT, serves=["C14"], key=INIT + "#plan",
+        requires=["stock > 0", "min_transfer > 0"],
+        scenarios=scen,
+        raises=[("ValueError", None)],
+        ensures=[
+            ("whole-bounded-volumes", "plan_volumes_ok(self, R, C, vmax, min_transfer)", ["C14"]),
+            ("prepared-from-stock-or-earlier-column", "plan_sources_ok(self, R, C, vmax)", ["C14"]),
+            ("reported-concentrations", "plan_concentrations_ok(self, R, C, vmax, stock)", ["C14"]),
+            ("reported-totals", "plan_totals_ok(self, R, C, vmax)", ["C14"]),
+        ],
+        native={"imports": ["from pyvc.native_io import _make_plan"], "check_raises": False, "returns_native": False,
+                "call": "_make_plan(xmin, xmax, R, C, stock, mode, vmax, min_transfer)",
+                "clause_text": {k: f"result['{k}']" for k in ("whole-bounded-volumes", "prepared-from-stock-or-earlier-column",
+                                                               "reported-concentrations", "reported-totals")}},
+        note="planning loops for concrete R x C (1x1, 2x2 quick; 1x3 thorough), every real-valued argument symbolic; numpy.exp/log are "
+             "uninterpreted, numpy.linspace affine; the draw budget of source columns (known finding) and to_worklist stay bounded",
+    ))
+
+
+_install0 = install
+
+
+def install(world):
+    _install0(world)
+    install_plan(world)
